@@ -63,6 +63,11 @@ SEEDS = {
     "v3auth-get1-after": ("v3:authNoPriv:md5", "get1-after"),
     "v3priv-get1-after": ("v3:authPriv:sha1", "get1-after"),
     "v3priv-get40-after": ("v3:authPriv:md5", "get40-after"),
+    # engine id chosen so that a decoder which, after an indefinite length,
+    # starts again at octet 1 of the scoped PDU (30 LL 04 0b <engine id> ...)
+    # falls back into step with the real TLV boundaries: LL is read as a tag
+    # with length 4, then 88 04, then 05 00, then the real contextName
+    "v3priv-get1-after-realign": ("v3:authPriv:md5", "get1-after"),
     "v3auth-discovery": ("v3:authNoPriv:md5", "discovery"),
     "v3auth-report": ("v3:authNoPriv:md5", "report"),
     "v2c-trap": ("v2c", "trap"),
@@ -70,7 +75,8 @@ SEEDS = {
     "v2c-get1500": ("v2c", "many"),
 }
 
-QUICK_SEEDS = ["v2c-get1", "v2c-error", "v3noauth-get1", "v3auth-get1", "v3priv-get1-after", "v3auth-discovery", "v2c-trap", "v2c-get1500"]
+QUICK_SEEDS = ["v2c-get1", "v2c-error", "v3noauth-get1", "v3auth-get1", "v3priv-get1-after", "v3priv-get1-after-realign", "v3auth-discovery", "v2c-trap", "v2c-get1500"]
+REALIGN_ENGINE = b"\x80\x00\x1f\x88\x04agen\x05\x00"
 
 
 class Target:
@@ -106,7 +112,8 @@ class Target:
             self.client, self.sender = world.make_client(V2C("public"), self.agent.handle)
         else:
             _, level, method = self.version.split(":")
-            self.client, self.sender, self.agent = world.make_v3(db, level, method)
+            kw = {"engine_id": REALIGN_ENGINE} if self.name.endswith("realign") else {}
+            self.client, self.sender, self.agent = world.make_v3(db, level, method, **kw)
         self.mutate = None
         self.delivered = None
         self.armed = False
